@@ -85,6 +85,16 @@
 ; ---- what each token kind means at its position (C09, written from the property statement)
 (define-fun tokText1 ((q Str) (a Int) (e Int) (c Int)) Bool (and (= e (+ a 1)) (= (Str.nth q a) c)))
 (define-fun tokText2 ((q Str) (a Int) (e Int) (c Int) (d Int)) Bool (and (= e (+ a 2)) (= (Str.nth q a) c) (= (Str.nth q (+ a 1)) d)))
+; ---- numeric value of number tokens (C04/C09), up to the assumed library functions:
+; a hexadecimal literal is the decimal spelling (strconv.FormatUint base 10) of the value strconv.ParseUint
+; reads from its digits in base 16; a decimal literal keeps its digits, minus leading zeros, with a zero put
+; in front of a leading '.' or exponent
+(define-fun hexValue ((digits Str)) Str (strconv.FormatUint (strconv.ParseUint.val digits 16) 10))
+(define-fun normNum ((s Str)) Str
+  (ite (= (Str.len (strings.TrimLeft s "0")) 0) "0"
+  (ite (or (= (Str.nth (strings.TrimLeft s "0") 0) 46) (= (Str.nth (strings.TrimLeft s "0") 0) 101) (= (Str.nth (strings.TrimLeft s "0") 0) 69))
+       (Str.cat "0" (strings.TrimLeft s "0"))
+       (strings.TrimLeft s "0"))))
 (define-fun notNext ((q Str) (e Int) (c Int)) Bool (or (= e (Str.len q)) (not (= (Str.nth q e) c))))
 (define-fun isWordKind ((k Int)) Bool (or (= k TokenIdentifier) (= k TokenAnd) (= k TokenOr) (= k TokenIn) (= k TokenBy)))
 (define-fun hasValue ((k Int)) Bool (or (= k TokenIdentifier) (= k TokenQuotedIdentifier) (= k TokenNumber) (= k TokenString) (= k TokenError)))
@@ -135,7 +145,10 @@
                  (or (sbody q (Str.nth q a) (+ a 1) e) (and (sbody q (Str.nth q a) (+ a 1) (- e 1)) (= (Str.nth q (- e 1)) 92))))))
     (=> (= k TokenNumber)
         (and (or (isDigitC (Str.nth q a)) (= (Str.nth q a) 46)) (allNumBytes q a e) (digitEnd q e) (<= (ndots q a e) 1)
-             (numBytesOf v) (> (Str.len v) 0)))))
+             (numBytesOf v) (> (Str.len v) 0)
+             ; the value: decimal spelling of the same number
+             (= v (ite (and (< (+ a 1) (Str.len q)) (= (Str.nth q a) 48) (or (= (Str.nth q (+ a 1)) 120) (= (Str.nth q (+ a 1)) 88)))
+                       (hexValue (Str.slice q (+ a 2) e)) (normNum (Str.slice q a e))))))))
 (define-fun-rec tokenOK ((q Str) (t Token)) Bool
   (tokenOKat q (Token.Kind t) (Span.Start (Token.Span t)) (Span.End (Token.Span t)) (Token.Value t)))
 
